@@ -118,26 +118,6 @@ theorem resolve_rel_nonneg (f l d ns : Int) (h : 0 ≤ ns) : resolve f l d (.rel
 theorem resolve_rel_neg (f l d ns : Int) (h : ns < 0) : resolve f l d (.rel ns) = l + ns := by
   simp only [resolve]; rw [if_neg (by omega)]
 
-theorem mem_samplesFrom (dt : Int) (hdt : 0 < dt) :
-    ∀ (l : List Int) (t0 : Int) (x : Sample), x ∈ samplesFrom t0 dt l →
-      t0 ≤ x.1 ∧ x.1 < t0 + l.length * dt := by
-  intro l
-  induction l with
-  | nil => intro t0 x hx; simp [samplesFrom] at hx
-  | cons v vs ih =>
-    intro t0 x hx
-    simp only [samplesFrom, List.mem_cons] at hx
-    have e : ((vs.length + 1 : Nat) : Int) * dt = vs.length * dt + dt := by
-      rw [Int.natCast_add, Int.add_mul]; omega
-    have hnn : 0 ≤ (vs.length : Int) * dt := Int.mul_nonneg (by omega) (by omega)
-    rcases hx with hx | hx
-    · subst hx
-      simp only [List.length_cons]
-      rw [e]; omega
-    · have := ih (t0 + dt) x hx
-      simp only [List.length_cons]
-      rw [e]; omega
-
 /-- A continuous channel's own `[start, stop)` contains all of its samples, so `s[:]` (both bounds
     `None`) returns every sample. -/
 theorem cont_getitem_none (c : Cont) (hdt : 0 < c.dt) :
@@ -323,5 +303,309 @@ theorem parse_canonical (gs : List Grp) (hwf : ∀ g ∈ gs, g.WF)
 example : parseTime "1h 30m15s" = some 5415000000000 := by decide
 example : (⟨[], ['1'], 1⟩ : Grp).str ++ (⟨[' '], ['3', '0'], 2⟩ : Grp).str ++ (⟨[], ['1', '5'], 3⟩ : Grp).str
     = "1h 30m15s".toList := by decide
+
+/-! # Deepening round D -/
+
+/-- Well-formed sources. -/
+def Src.WF : Src → Prop
+  | .cont c => 0 < c.dt
+  | .ts l => l.Pairwise (fun x y => x.1 ≤ y.1)
+  | .tags t => ∀ x ∈ t.data, t.start ≤ x ∧ x < t.stop
+
+theorem wf_dt (s : Src) (h : s.WF) : ∀ c, s = .cont c → 0 < c.dt := by
+  intro c hc; subst hc; exact h
+
+theorem wf_slice (s : Src) (h : s.WF) (a b : Int) : (s.slice a b).WF := by
+  cases s with
+  | cont c => exact h
+  | ts l => exact List.Pairwise.sublist List.filter_sublist h
+  | tags t =>
+    intro x hx
+    simp only [Src.slice, Tags.slice, Tags.init, List.mem_filter, Bool.and_eq_true, decide_eq_true_eq] at hx ⊢
+    omega
+
+theorem wf_getitem (s : Src) (h : s.WF) (a b : Bound) : (s.getitem a b).WF := by
+  unfold Src.getitem
+  split
+  · exact h
+  · exact wf_slice s h _ _
+
+theorem pairwise_head_le (l : List Sample) (h : l.Pairwise (fun x y => x.1 ≤ y.1)) (x y : Sample)
+    (hy : l.head? = some y) (hx : x ∈ l) : y.1 ≤ x.1 := by
+  cases l with
+  | nil => simp at hy
+  | cons z zs =>
+    simp only [List.head?_cons, Option.some.injEq] at hy
+    subst hy
+    rcases List.mem_cons.mp hx with hx | hx
+    · subst hx; exact Int.le_refl _
+    · exact (List.pairwise_cons.mp h).1 x hx
+
+theorem pairwise_le_last (l : List Sample) (h : l.Pairwise (fun x y => x.1 ≤ y.1)) (x y : Sample)
+    (hy : l.getLast? = some y) (hx : x ∈ l) : x.1 ≤ y.1 := by
+  induction l with
+  | nil => simp at hx
+  | cons z zs ih =>
+    cases zs with
+    | nil =>
+      simp at hy hx; subst hy; subst hx; exact Int.le_refl _
+    | cons w ws =>
+      have hp := List.pairwise_cons.mp h
+      have hy' : (w :: ws).getLast? = some y := by simpa [List.getLast?_cons_cons] using hy
+      rcases List.mem_cons.mp hx with hx | hx
+      · subst hx
+        exact hp.1 y (List.mem_of_getLast? hy')
+      · exact ih hp.2 hy' hx
+
+/-- Every sample of a well-formed non-empty source lies in the source's own `[start, stop)`. -/
+theorem wf_samples_in_bounds (s : Src) (h : s.WF) (x : Sample) (hx : x ∈ s.samples) :
+    s.start ≤ x.1 ∧ x.1 < s.stop := by
+  cases s with
+  | cont c => exact mem_samplesFrom c.dt h c.data c.start x hx
+  | ts l =>
+    simp only [Src.samples] at hx
+    simp only [Src.start, Src.stop]
+    cases hh : l.head? with
+    | none => rw [List.head?_eq_none_iff.mp hh] at hx; simp at hx
+    | some y =>
+      cases hl : l.getLast? with
+      | none => rw [List.getLast?_eq_none_iff.mp hl] at hx; simp at hx
+      | some z =>
+        have h1 := pairwise_head_le l h x y hh hx
+        have h2 := pairwise_le_last l h x z hl hx
+        simp only [Option.map_some, Option.getD_some]
+        omega
+  | tags t =>
+    simp only [Src.samples, Tags.samples, List.mem_map] at hx
+    obtain ⟨y, hy, rfl⟩ := hx
+    exact h y hy
+
+
+/-! constructors establish the invariant -/
+
+theorem pairwise_map_fst (ts : List Int) (h : ts.Pairwise (· ≤ ·)) :
+    (ts.map fun x => ((x, x) : Sample)).Pairwise (fun x y => x.1 ≤ y.1) := by
+  rw [List.pairwise_map]; exact h
+
+/-- `TimeTags(data)` with chronological data: the default bounds enclose the data. -/
+theorem tags_init_wf (ts : List Int) (h : ts.Pairwise (· ≤ ·)) : (Src.tags (Tags.init ts none none)).WF := by
+  intro x hx
+  simp only [Tags.init] at hx ⊢
+  have hs := pairwise_map_fst ts h
+  have hm : ((x, x) : Sample) ∈ ts.map fun x => ((x, x) : Sample) := List.mem_map.mpr ⟨x, hx, rfl⟩
+  cases hh : ts.head? with
+  | none => rw [List.head?_eq_none_iff.mp hh] at hx; simp at hx
+  | some y =>
+    cases hl : ts.getLast? with
+    | none => rw [List.getLast?_eq_none_iff.mp hl] at hx; simp at hx
+    | some z =>
+      have h1 := pairwise_head_le _ hs (x, x) (y, y) (by simp [List.head?_map, hh]) hm
+      have h2 := pairwise_le_last _ hs (x, x) (z, z) (by simp [List.getLast?_map, hl]) hm
+      simp only [Option.getD_some, Option.map_some]
+      simp only at h1 h2
+      omega
+
+/-- `None` on both sides returns every sample — all three kinds. -/
+theorem getitem_none_all (s : Src) (h : s.WF) : (s.getitem .none .none).samples = s.samples := by
+  by_cases hne : s.len = 0
+  · rw [getitem_empty _ hne]
+  · rw [getitem_spec _ hne (wf_dt s h)]
+    simp only [resolve]
+    rw [List.filter_eq_self]
+    intro x hx
+    have := wf_samples_in_bounds s h x hx
+    simp [inWin, this.1, this.2]
+
+/-- A window bound as the user may give it at any level: `None` or an integer. -/
+def optBound : Option Int → Bound
+  | none => .none
+  | some t => .ts t
+
+/-- the constraint a lower / upper bound puts on a timestamp (`None`: no constraint) -/
+def okLo (a : Option Int) (x : Sample) : Bool := match a with | none => true | some a => decide (a ≤ x.1)
+def okHi (b : Option Int) (x : Sample) : Bool := match b with | none => true | some b => decide (x.1 < b)
+
+/-- `s[a:b]` with `None` allowed on either side keeps exactly the samples satisfying the bounds that were given. -/
+theorem getitem_opt_spec (s : Src) (h : s.WF) (a b : Option Int) :
+    (s.getitem (optBound a) (optBound b)).samples = s.samples.filter (fun x => okLo a x && okHi b x) := by
+  by_cases hne : s.len = 0
+  · rw [getitem_empty _ hne]
+    have : s.samples = [] := List.length_eq_zero_iff.mp (by rw [← len_eq_samples_length]; exact hne)
+    rw [this]; rfl
+  · rw [getitem_spec _ hne (wf_dt s h)]
+    apply List.filter_congr
+    intro x hx
+    have := wf_samples_in_bounds s h x hx
+    rw [Bool.eq_iff_iff]
+    have ea : resolve s.start s.stop s.start (optBound a) = a.getD s.start := by cases a <;> rfl
+    have eb : resolve s.start s.stop s.stop (optBound b) = b.getD s.stop := by cases b <;> rfl
+    rw [ea, eb]
+    cases a <;> cases b <;> simp [okLo, okHi, inWin, this.1, this.2]
+
+/-- Composition with `None` in any of the four positions: `s[a:b][c:d]` keeps exactly the samples that satisfy
+    every bound that was given (= `s[max(a,c):min(b,d)]` when all four are integers). -/
+theorem getitem_compose_opt (s : Src) (h : s.WF) (a b c d : Option Int) :
+    ((s.getitem (optBound a) (optBound b)).getitem (optBound c) (optBound d)).samples =
+      s.samples.filter (fun x => okLo a x && okLo c x && okHi b x && okHi d x) := by
+  rw [getitem_opt_spec _ (wf_getitem s h _ _), getitem_opt_spec s h, List.filter_filter]
+  apply List.filter_congr
+  intro x _
+  cases okLo a x <;> cases okLo c x <;> cases okHi b x <;> cases okHi d x <;> rfl
+
+/-- The hypothesis is needed for time series: a series stored out of chronological order has "begin" 5 and
+    "end" 4, and `s[:]` loses every sample (kernel-checked). -/
+theorem getitem_none_needs_sorted :
+    ((Src.ts [(5, 0), (3, 1)]).getitem .none .none).samples ≠ (Src.ts [(5, 0), (3, 1)]).samples := by decide
+
+example : (Src.ts [(3, 0), (5, 1), (5, 2), (9, 3)]).WF := by
+  simp [Src.WF]
+example : (Src.cont ⟨7, 3, [0, 1, 2]⟩).WF := by simp [Src.WF]
+
+
+/-! ## the whole `Slice.__getitem__` -/
+
+/-- A bound argument is an invalid time string. -/
+def BoundArg.invalid : BoundArg → Bool
+  | .str s => (parseTime s).isNone
+  | _ => false
+
+/-- The bound a well-formed argument stands for. -/
+def BoundArg.toBound : BoundArg → Bound
+  | .none => .none
+  | .int t => .ts t
+  | .str s => .rel ((parseTime s).getD 0)
+  | .other => .none
+
+/-- Decision table of the window branch of `Slice.__getitem__` (the code takes these decisions one after the
+    other while converting; the table says which outcome every combination of arguments has):
+    empty source → itself, whatever the bounds; else an invalid time string on either side → `RuntimeError`;
+    else a bound that is neither `None`, an integer nor a string → `TypeError`; else the samples inside the window. -/
+theorem window_table (s : Src) (a b : BoundArg) :
+    s.window a b =
+      if s.len = 0 then .ok s
+      else if a.invalid || b.invalid then .error .runtimeError
+      else if a = .other ∨ b = .other then .error .typeError
+      else .ok (s.getitem a.toBound b.toBound) := by
+  unfold Src.window
+  by_cases h0 : s.len = 0
+  · simp [h0]
+  · simp only [h0, ↓reduceIte]
+    have hg : ∀ a' b' : Bound, s.getitem a' b' =
+        s.slice (resolve s.start s.stop s.start a') (resolve s.start s.stop s.stop b') := by
+      intro a' b'; unfold Src.getitem; rw [if_neg h0]
+    cases a with
+    | none =>
+      cases b with
+      | none => simp [toTimestamp, BoundArg.invalid, BoundArg.toBound, hg, resolve]
+      | int t => simp [toTimestamp, BoundArg.invalid, BoundArg.toBound, hg, resolve]
+      | other => simp [toTimestamp, BoundArg.invalid]
+      | str sb =>
+        cases hb : parseTime sb <;> simp [toTimestamp, BoundArg.invalid, BoundArg.toBound, hg, resolve, hb]
+    | int ta =>
+      cases b with
+      | none => simp [toTimestamp, BoundArg.invalid, BoundArg.toBound, hg, resolve]
+      | int t => simp [toTimestamp, BoundArg.invalid, BoundArg.toBound, hg, resolve]
+      | other => simp [toTimestamp, BoundArg.invalid]
+      | str sb =>
+        cases hb : parseTime sb <;> simp [toTimestamp, BoundArg.invalid, BoundArg.toBound, hg, resolve, hb]
+    | other =>
+      cases b with
+      | none => simp [toTimestamp, BoundArg.invalid]
+      | int t => simp [toTimestamp, BoundArg.invalid]
+      | other => simp [toTimestamp, BoundArg.invalid]
+      | str sb =>
+        cases hb : parseTime sb <;> simp [toTimestamp, BoundArg.invalid, hb]
+    | str sa =>
+      cases ha : parseTime sa with
+      | none => simp [toTimestamp, BoundArg.invalid, ha]
+      | some na =>
+        cases b with
+        | none => simp [toTimestamp, BoundArg.invalid, BoundArg.toBound, hg, resolve, ha]
+        | int t => simp [toTimestamp, BoundArg.invalid, BoundArg.toBound, hg, resolve, ha]
+        | other => simp [toTimestamp, BoundArg.invalid, ha]
+        | str sb =>
+          cases hb : parseTime sb <;> simp [toTimestamp, BoundArg.invalid, BoundArg.toBound, hg, resolve, ha, hb]
+
+
+theorem getitemFull_obj (s : Src) (a b : BoundArg) :
+    s.getitemFull (.obj a b) = s.getitemFull (.slice a b false) := rfl
+theorem getitemFull_step (s : Src) (a b : BoundArg) : s.getitemFull (.slice a b true) = .error .indexError := rfl
+theorem getitemFull_scalar (s : Src) : s.getitemFull .scalar = .error .indexError := rfl
+
+/-- The property at the level of `Slice.__getitem__`: whenever indexing with a slice (or an object with
+    start/stop) succeeds, the result holds exactly the samples inside the resolved window. -/
+theorem getitemFull_window_spec (s : Src) (hdt : ∀ c, s = .cont c → 0 < c.dt) (a b : BoundArg) (r : Src)
+    (hr : s.getitemFull (.slice a b false) = .ok r) :
+    r.samples = s.samples.filter
+      (inWin (resolve s.start s.stop s.start a.toBound) (resolve s.start s.stop s.stop b.toBound)) := by
+  have ht := window_table s a b
+  simp only [Src.getitemFull, Bool.false_eq_true, ↓reduceIte] at hr
+  rw [ht] at hr
+  by_cases h0 : s.len = 0
+  · rw [if_pos h0] at hr
+    injection hr with hr; subst hr
+    have : s.samples = [] := List.length_eq_zero_iff.mp (by rw [← len_eq_samples_length]; exact h0)
+    rw [this]; rfl
+  · rw [if_neg h0] at hr
+    split at hr
+    · cases hr
+    · split at hr
+      · cases hr
+      · injection hr with hr; subst hr
+        exact getitem_spec s h0 hdt _ _
+
+/-- An independent reading of "keeps exactly the masked samples": the samples at the positions `i` whose flag
+    `m[i]` is set, in increasing order of `i`. -/
+def maskSpec (l : List Sample) (m : List Bool) : List Sample :=
+  ((List.range l.length).filter (fun i => m.getD i false)).filterMap (fun i => l[i]?)
+
+theorem zipMask_eq (l : List Sample) (m : List Bool) (h : l.length = m.length) :
+    ((l.zip m).filterMap fun (s, k) => if k then some s else none) = maskSpec l m := by
+  induction l generalizing m with
+  | nil => simp [maskSpec]
+  | cons x xs ih =>
+    cases m with
+    | nil => simp at h
+    | cons k ks =>
+      have h' : xs.length = ks.length := by simpa using h
+      have ih' := ih ks h'
+      unfold maskSpec at ih' ⊢
+      simp only [List.zip_cons_cons, List.filterMap_cons, List.length_cons, List.range_succ_eq_map,
+        List.filter_cons, List.filter_map, List.filterMap_map]
+      have e1 : ((fun i => (k :: ks).getD i false) ∘ Nat.succ) = fun i => ks.getD i false := by
+        funext i; simp
+      have e2 : ((fun i => (x :: xs)[i]?) ∘ Nat.succ) = fun i => xs[i]? := by
+        funext i; simp
+      cases k
+      · simp [e1, e2, ih', Function.comp_def]
+      · simp [e1, e2, ih', Function.comp_def]
+
+/-- A boolean mask keeps exactly the flagged samples (by position), or raises when the lengths differ. -/
+theorem applyMask_spec (l : List Sample) (m : List Bool) :
+    applyMask l m = if l.length = m.length then some (maskSpec l m) else none := by
+  unfold applyMask
+  split
+  · rename_i h; rw [zipMask_eq l m h]
+  · rfl
+
+/-- `_apply_mask` of every source kind. -/
+theorem src_applyMask_table (s : Src) (m : List Bool) :
+    s.applyMask m =
+      match s with
+      | .tags _ => .error .notImplemented
+      | _ => if s.len = m.length then .ok (.ts (maskSpec s.samples m)) else .error .indexError := by
+  cases s with
+  | tags t => rfl
+  | cont c =>
+    simp only [Src.applyMask, applyMask_spec, len_eq_samples_length]
+    by_cases h : (Src.cont c).samples.length = m.length
+    · simp only [h, ↓reduceIte]
+    · simp only [h, ↓reduceIte]
+  | ts l =>
+    simp only [Src.applyMask, applyMask_spec, len_eq_samples_length]
+    by_cases h : (Src.ts l).samples.length = m.length
+    · simp only [h, ↓reduceIte]
+    · simp only [h, ↓reduceIte]
+
 
 end Verif.C01
